@@ -83,7 +83,7 @@ class Universe:
         self.text = {}        # name -> text
         self.bytes_of = {}    # decoded bytes -> name (for the lenient-base64 classification)
         self.ivs = {}         # iv text -> bytes
-        self.rx = None
+        self.lengths = None
 
     def add(self, text, term):
         if text in self.by_text:
@@ -94,7 +94,7 @@ class Universe:
         self.text[name] = text
         for raw in self.decodings(text):
             self.bytes_of[raw] = name
-        self.rx = None
+        self.lengths = None
         return name
 
     @staticmethod
@@ -119,20 +119,41 @@ class Universe:
     def add_iv(self, text):
         self.ivs[text] = base64.b64decode(text)
 
+    RUN = re.compile(r"([A-Za-z0-9+/=_-]+)")
+
     def tokens(self, s):
-        """cookie string -> list of ('t', text) / ('b', name), blobs = maximal occurrences of known blob texts"""
-        if self.rx is None:
-            alts = sorted(self.by_text, key=len, reverse=True)
-            self.rx = re.compile("(" + "|".join(re.escape(a) for a in alts) + ")") if alts else None
-        if not self.rx:
-            return [("t", s)] if s else []
+        """cookie string -> list of ('t', text) / ('b', name).  Blob texts are base64: the string is cut into maximal
+        runs of base64 characters; a run that is an issued blob text is a blob; a run that starts or ends with one
+        (characters moved across a boundary) is a blob plus characters."""
         out = []
-        for i, seg in enumerate(self.rx.split(s)):
-            if i % 2:
-                out.append(("b", self.by_text[seg]))
-            elif seg:
+        for i, seg in enumerate(self.RUN.split(s)):
+            if not seg:
+                continue
+            if i % 2 == 0:
                 out.append(("t", seg))
-        return out
+            else:
+                out.extend(self.run_tokens(seg))
+        res = []
+        for k, x in out:       # merge adjacent text tokens
+            if k == "t" and res and res[-1][0] == "t":
+                res[-1] = ("t", res[-1][1] + x)
+            else:
+                res.append((k, x))
+        return res
+
+    def run_tokens(self, run):
+        if run in self.by_text:
+            return [("b", self.by_text[run])]
+        if self.lengths is None:
+            self.lengths = sorted({len(t) for t in self.by_text}, reverse=True)
+        n = len(run)
+        for L in self.lengths:
+            if L < n:
+                if run[:L] in self.by_text:
+                    return [("b", self.by_text[run[:L]])] + self.run_tokens(run[L:])
+                if run[n - L:] in self.by_text:
+                    return self.run_tokens(run[:n - L]) + [("b", self.by_text[run[n - L:]])]
+        return [("t", run)]
 
     def wire(self, s):
         toks = self.tokens(s)
@@ -668,7 +689,7 @@ def run(ctx):
                  ("a", "a:", 27), ("", "", 28), ("tail ", "", 29), ("clock", "sso", 0), ("clock2", "", "")]
         hostile = [("a", ":b", "30"), ("a:", ":b", "31"), ("a", "x::y", "32"), ("a", "b ", "33"), ("a", "   ", "34"),
                    ("a", "b", "1|7"), ("a", "b", "3 5"), ("a", "::", "36"), ("a", ":", "37"), ("a", "b", "å7")]
-        nrand = 25 if ctx.quick else 600
+        nrand = 25 if ctx.quick else 300
         for mode in modes:
             for v, t, ts in fixed:
                 do_make(ctx, U, mode, v, t, ts, clock.now, make_cases, parse_cases, "roundtrip-fixed")
@@ -705,7 +726,7 @@ def run(ctx):
     # ---- (3) providers
     provider_cookies(ctx, U, {m.name: m for m in modes}, rng, make_cases, parse_cases)
     # ---- (2) structural mutations
-    nbase = 6 if ctx.quick else 40
+    nbase = 6 if ctx.quick else 25
     for mode in modes:
         gen = [g for g in mode.genuine if g[3]]
         if len(gen) < 2:
